@@ -2,6 +2,8 @@
 //! generated or replayed operation sequences and writes a transcript that the Lean driver
 //! (/verif/lean/Driver.lean) replays through the formal model.
 mod flat;
+mod gen;
+mod methods;
 mod rng;
 mod util;
 mod window;
@@ -55,6 +57,12 @@ fn main() {
 	} else {
 		match suite.as_str() {
 			"window" => window::suite(&mut out, seed, thorough),
+			"methods" => {
+				let filter: Vec<String> = arg(&args, "--methods")
+					.map(|s| s.split(',').map(|x| x.to_string()).collect())
+					.unwrap_or_default();
+				methods::suite(&mut out, seed, thorough, &filter)
+			}
 			other => {
 				eprintln!("unknown suite {other}");
 				std::process::exit(2);
@@ -67,6 +75,7 @@ fn main() {
 fn dispatch_replay(out: &mut Out, _suite: &str, id: u64, comp: &str, lines: &[String]) {
 	match comp {
 		"window" => window::run_program(out, id, &lines[1..].to_vec()),
+		"method" => methods::replay_case(out, id, lines),
 		other => panic!("replay: unknown component {other}"),
 	}
 }
